@@ -226,7 +226,29 @@ def composed(ctx, drv, rng, k):
     ctx.count("composed")
 
 
+def elevation_kernel_case(p):
+    """peak_elevation on a small map with exactly representable values and a refined position on the quarter-pixel grid, so
+    that some pixels are at distance exactly 1.5 (they belong to the cone: distance >= 1.5)"""
+    from libertem_blobfinder.base import correlation as bc
+    m = np.asarray(p["map"], dtype=p["dtype"])
+    cy, cx = p["center"]
+    height = float(m.max()) + p["above"]
+    yy, xx = np.mgrid[0:m.shape[0], 0:m.shape[1]]
+    dist = np.sqrt((yy - cy) ** 2.0 + (xx - cx) ** 2.0)
+    sel = dist >= 1.5
+    want = max(0.0, float(((height - m.astype(np.float64))[sel] / dist[sel]).min())) if sel.any() else np.inf
+    try:
+        got = float(bc.peak_elevation((np.float32(cy), np.float32(cx)), m, np.float32(height)))
+    except Exception as e:
+        return [f"peak_elevation raised {type(e).__name__}: {e}"]
+    if not (abs(got - want) <= 1e-5 * max(1.0, abs(want)) or (np.isinf(got) and np.isinf(want))):
+        return [f"peak_elevation at {(cy, cx)} on a {m.shape} map: {got!r}, smallest slope over pixels at distance >= 1.5 is {want!r}"]
+    return []
+
+
 def run_case(kind, p):
+    if kind == "elevation_kernel":
+        return elevation_kernel_case(p)
     rng = np.random.default_rng(p["seed"])
     pattern = impl.pattern_from(p["pattern"])
     c = pattern.get_crop_size()
@@ -275,3 +297,16 @@ def search(ctx, boost=1, focus=()):
         border = bool(np.any(pk - c < 0) or np.any(pk[:, 0] + c > p["shape"][0]) or np.any(pk[:, 1] + c > p["shape"][1]))
         ctx.oracle_case("definitions", p, run_case("definitions", p), nontrivial=border)
         ctx.count("oracle_" + p["pattern"]["kind"])
+    for k in range(n):
+        h, w = int(rng.integers(4, 10)), int(rng.integers(4, 10))
+        m = rng.integers(0, 9, (h, w)).astype(np.float64)
+        cy, cx = int(rng.integers(1, h - 1)), int(rng.integers(1, w - 1))
+        m[cy, cx] = 9 + int(rng.integers(0, 4))
+        if k % 2:      # a high shoulder 1.5 px away from a half-pixel position
+            m[cy, min(cx + 1, w - 1)] = m[cy, cx]
+            if cx + 2 < w:
+                m[cy, cx + 2] = m[cy, cx] - 1
+        off = [(0.0, 0.0), (0.0, 0.5), (0.5, 0.0), (0.5, 0.5), (0.25, 0.0), (0.0, -0.5)][k % 6]
+        q = {"map": m, "dtype": ["float32", "float64"][(k // 6) % 2], "center": [cy + off[0], cx + off[1]], "above": float(k % 3)}
+        ctx.oracle_case("elevation_kernel", q, run_case("elevation_kernel", q), nontrivial=off != (0.0, 0.0))
+        ctx.count("elevation_kernel")
